@@ -5,11 +5,12 @@ import json, os, sys, importlib
 VERIF = os.path.dirname(os.path.dirname(os.path.abspath(__file__)))
 sys.path.insert(0, os.path.join(VERIF, "driver"))
 props = [json.loads(l) for l in open(os.path.join(VERIF, "properties.jsonl"))]
+CLAIMED = [l.strip() for l in open(os.path.join(VERIF, "driver", "claimed.txt")) if l.strip() and not l.startswith("#")]
 checks, na = [], []
 for p in props:
     pid = p["id"]
     mp = os.path.join(VERIF, "driver", "props", pid.lower() + ".py")
-    if os.path.exists(mp):
+    if os.path.exists(mp) and pid in CLAIMED:
         mod = importlib.import_module("props." + pid.lower())
         checks.append({
             "property_id": pid,
